@@ -118,93 +118,107 @@ def part_a(ctx, rng, n):
     return
 
 
+def sweep_history(ctx, fn, kind, impl, ml, mi, u, nops, seed, swept, pins_seen):
+    """one seeded history on a stored object-keyed container; with [swept] every key comparison sweeps the cache"""
+    f = fam(fn)
+    cls = f.cls(kind, impl)
+    setlike = kind == "TreeSet"
+    vm = f.valmap()
+    rr = _r.Random(seed)
+    with sizes([f.cls("BTree", impl), f.cls("TreeSet", impl)], ml, mi):
+        st = Storage()
+        jar = Jar(st)
+        t = cls()
+        jar.add(t)
+        jar.commit()
+        outs = []
+        ncmp = [0]
+        f33_hit = [False]
+
+        def hook():
+            ncmp[0] += 1
+            npin = len(sticky_nodes(jar))
+            pins_seen[npin] = pins_seen.get(npin, 0) + 1
+            jar.minimize()
+        for i in range(nops):
+            k = SweepKey(rr.randrange(u))
+            op = rr.choice(["set", "set", "del", "get", "in", "min", "max", "range", "len", "pop", "commit"])
+            SweepKey.hook = hook if swept else None
+            try:
+                if op == "set":
+                    r = t.add(k) if setlike else t.__setitem__(k, vm.v(i % 4))
+                    r = ("ok", bool(r) if setlike else None)
+                elif op == "del":
+                    r = ("ok", t.remove(k) if setlike else t.__delitem__(k))
+                elif op == "get":
+                    r = ("ok", (k in t) if setlike else t.get(k))
+                elif op == "in":
+                    r = ("ok", k in t)
+                elif op == "min":
+                    r = ("ok", repr(t.minKey(k)))
+                elif op == "max":
+                    r = ("ok", repr(t.maxKey(k)))
+                elif op == "range":
+                    k2 = SweepKey(rr.randrange(u))
+                    r = ("ok", repr(list(t.keys(k, k2, rr.random() < 0.5, rr.random() < 0.5))))
+                elif op == "len":
+                    r = ("ok", len(t))
+                elif op == "pop":
+                    r = ("ok", repr(t.pop()) if setlike else t.pop(k, None))
+                else:
+                    SweepKey.hook = None
+                    if f16_condition(None, t):
+                        # not committed: this shape is stored damaged (finding F16 of C04)
+                        ctx.cov["commits_skipped_at_F16_shape"] = ctx.cov.get("commits_skipped_at_F16_shape", 0) + 1
+                    elif commit_detecting_f33(jar, t):
+                        f33_hit[0] = True
+                    r = ("ok", None)
+            except (KeyError, ValueError) as e:
+                r = (type(e).__name__,)
+            except Exception as e:  # noqa
+                r = ("other", type(e).__name__, str(e)[:60])
+            finally:
+                SweepKey.hook = None
+            outs.append((op, k.n, r))
+            if f33_hit[0]:
+                break          # finding F33 of C04: everything after this commit would only re-report it
+            stk = sticky_nodes(jar)
+            if stk:
+                ctx.oracle_failure("%s:%s:sticky-after:%s" % (impl, kind, op), "%s%s/%s: %d node(s) still pinned after %s(%r) -> %r" % (fn, kind, impl, len(stk), op, k, r),
+                                   {"family": fn, "kind": kind, "impl": impl, "seed": seed, "sizes": [ml, mi], "op_index": i})
+                break
+        try:
+            final = [repr(x) for x in (t if setlike else t.items())]
+            chk = None
+            t._check()
+        except Exception as e:  # noqa
+            final, chk = None, "%s: %s" % (type(e).__name__, str(e)[:80])
+        return (outs, final, chk)
+
+
+# histories that once took the process down (kept as a corpus that runs first): (family, kind, impl, sizes, u, nops, seed)
+SWEEP_CORPUS = [("OQ", "BTree", "C", (2, 2), 30, 50, 0.14476375633043415)]      # finding F42
+
+
 def part_b(ctx, rng, n):
     """sweeps inside key comparisons (object-keyed families)"""
     pins_seen = {}
+    cases = list(SWEEP_CORPUS)
     for it in range(n):
         fn = rng.choice(["OO", "OI", "OL", "OQ", "OU"])
         kind = rng.choice(["BTree", "BTree", "TreeSet"])
         impl = rng.choice(["C", "C", "Py"])
-        f = fam(fn)
-        cls = f.cls(kind, impl)
         ml, mi = rng.choice([(2, 2), (3, 3), (2, 3), (1, 2)])
-        setlike = kind == "TreeSet"
-        vm = f.valmap()
         u = rng.choice([8, 16, 30])
         nops = rng.choice([10, 25, 50])
         seed = rng.random()
+        cases.append((fn, kind, impl, (ml, mi), u, nops, seed))
+    for fn, kind, impl, (ml, mi), u, nops, seed in cases:
+        ctx.progress({"scenario": "history with a cache sweep inside every key comparison", "family": fn, "kind": kind, "impl": impl,
+                      "sizes": [ml, mi], "u": u, "nops": nops, "seed": seed})
         results = {}
         for swept in (False, True):
-            rr = _r.Random(seed)
-            with sizes([f.cls("BTree", impl), f.cls("TreeSet", impl)], ml, mi):
-                st = Storage()
-                jar = Jar(st)
-                t = cls()
-                jar.add(t)
-                jar.commit()
-                outs = []
-                ncmp = [0]
-                f33_hit = [False]
-
-                def hook():
-                    ncmp[0] += 1
-                    npin = len(sticky_nodes(jar))
-                    pins_seen[npin] = pins_seen.get(npin, 0) + 1
-                    jar.minimize()
-                for i in range(nops):
-                    k = SweepKey(rr.randrange(u))
-                    op = rr.choice(["set", "set", "del", "get", "in", "min", "max", "range", "len", "pop", "commit"])
-                    SweepKey.hook = hook if swept else None
-                    try:
-                        if op == "set":
-                            r = t.add(k) if setlike else t.__setitem__(k, vm.v(i % 4))
-                            r = ("ok", bool(r) if setlike else None)
-                        elif op == "del":
-                            r = ("ok", t.remove(k) if setlike else t.__delitem__(k))
-                        elif op == "get":
-                            r = ("ok", (k in t) if setlike else t.get(k))
-                        elif op == "in":
-                            r = ("ok", k in t)
-                        elif op == "min":
-                            r = ("ok", repr(t.minKey(k)))
-                        elif op == "max":
-                            r = ("ok", repr(t.maxKey(k)))
-                        elif op == "range":
-                            k2 = SweepKey(rr.randrange(u))
-                            r = ("ok", repr(list(t.keys(k, k2, rr.random() < 0.5, rr.random() < 0.5))))
-                        elif op == "len":
-                            r = ("ok", len(t))
-                        elif op == "pop":
-                            r = ("ok", repr(t.pop()) if setlike else t.pop(k, None))
-                        else:
-                            SweepKey.hook = None
-                            if f16_condition(None, t):
-                                # not committed: this shape is stored damaged (finding F16 of C04)
-                                ctx.cov["commits_skipped_at_F16_shape"] = ctx.cov.get("commits_skipped_at_F16_shape", 0) + 1
-                            elif commit_detecting_f33(jar, t):
-                                f33_hit[0] = True
-                            r = ("ok", None)
-                    except (KeyError, ValueError) as e:
-                        r = (type(e).__name__,)
-                    except Exception as e:  # noqa
-                        r = ("other", type(e).__name__, str(e)[:60])
-                    finally:
-                        SweepKey.hook = None
-                    outs.append((op, k.n, r))
-                    if f33_hit[0]:
-                        break          # finding F33 of C04: everything after this commit would only re-report it
-                    stk = sticky_nodes(jar)
-                    if stk:
-                        ctx.oracle_failure("%s:%s:sticky-after:%s" % (impl, kind, op), "%s%s/%s: %d node(s) still pinned after %s(%r) -> %r" % (fn, kind, impl, len(stk), op, k, r),
-                                           {"family": fn, "kind": kind, "impl": impl, "seed": seed, "sizes": [ml, mi], "op_index": i})
-                        break
-                try:
-                    final = [repr(x) for x in (t if setlike else t.items())]
-                    chk = None
-                    t._check()
-                except Exception as e:  # noqa
-                    final, chk = None, "%s: %s" % (type(e).__name__, str(e)[:80])
-                results[swept] = (outs, final, chk)
+            results[swept] = sweep_history(ctx, fn, kind, impl, ml, mi, u, nops, seed, swept, pins_seen)
         if results[False] != results[True]:
             a, b = results[False], results[True]
             first = next((i for i, (x, y) in enumerate(zip(a[0], b[0])) if x != y), None)
@@ -495,6 +509,53 @@ def part_f(ctx, rng, n):
             ctx.count(("f-raise", setlike, tuple(ks), probe))
         finally:
             cls.max_leaf_size, cls.max_internal_size = old
+    # (3) range queries and maxKey with a cache sweep inside EVERY comparison, on stored trees of three and more
+    # levels, every pair of bounds of a small universe and all flag combinations; compared with the un-swept result
+    # (finding F42: the search remembered a node of an unpinned, meanwhile evicted parent -- a crash of this process)
+    nsw = 0
+    for it in range(max(2, n // 20)):
+        cls = rng.choice([OOBTree, OOTreeSet])
+        setlike = cls is OOTreeSet
+        old = (cls.max_leaf_size, cls.max_internal_size)
+        cls.max_leaf_size, cls.max_internal_size = 2, 2
+        try:
+            jar = Jar(Storage())
+            t = cls()
+            ks = [2, 3, 6, 7, 10, 16, 20, 24, 26] if it == 0 else sorted(rng.sample(range(0, 30), rng.randint(7, 14)))
+            for k in ks:
+                if setlike:
+                    t.add(SweepKey(k))
+                else:
+                    t[SweepKey(k)] = k
+            jar.add(t)
+            jar.commit()
+            ctx.progress({"scenario": "range queries with a cache sweep inside every comparison", "kind": cls.__name__, "keys": ks})
+            bounds = sorted(set(rng.sample(range(-1, 31), 9) + [7, 24]))
+            for lo in bounds:
+                for hi in bounds:
+                    for exmin, exmax in ((False, False), (True, True), (True, False), (False, True)):
+                        want = [k for k in ks if (k > lo if exmin else k >= lo) and (k < hi if exmax else k <= hi)]
+                        jar.minimize()
+                        SweepKey.hook = jar.minimize
+                        try:
+                            got = [x.n for x in t.keys(SweepKey(lo), SweepKey(hi), exmin, exmax)]
+                            try:
+                                mx = t.maxKey(SweepKey(hi)).n
+                            except ValueError:
+                                mx = None
+                        finally:
+                            SweepKey.hook = None
+                        nsw += 1
+                        wmx = max([k for k in ks if k <= hi], default=None)
+                        if got != want or mx != wmx:
+                            ctx.oracle_failure("C:%s:range-with-sweeps-inside-comparisons" % cls.__name__,
+                                               "%s sizes=(2,2) keys %r stored: keys(%d, %d, %r, %r) with a cache sweep inside every comparison -> %r (expected %r), maxKey(%d) -> %r (expected %r)" % (
+                                                   cls.__name__, ks, lo, hi, exmin, exmax, got, want, hi, mx, wmx),
+                                               {"kind": cls.__name__, "keys": ks, "lo": lo, "hi": hi, "exmin": exmin, "exmax": exmax})
+            ctx.count(("f-sweeps", setlike, tuple(ks)))
+        finally:
+            cls.max_leaf_size, cls.max_internal_size = old
+    ctx.cov["range_queries_with_sweeps_inside_comparisons"] = nsw
     ctx.cov["range_sequence_ops_checked_for_pins"] = nviews
     ctx.cov["raising_comparisons_checked_for_pins"] = nfail
 
